@@ -1,4 +1,4 @@
-"""C02: integer + - * negation ++/-- are lane-wise two's-complement."""
+"""C02: integer comparisons follow the lane type's signedness and yield all-or-nothing lane masks."""
 import common
 import runner
 
@@ -23,8 +23,7 @@ def run(tier, a=None):
     cfgs = select_cfgs(tier, a)
     runner.run_families(res, cfgs, ["compare"], type_filter(a))
     res.trusted = ["clang 14 front end and -O2 pipeline preserve the meaning of UB-free executions",
-                   "LLVM LangRef: add/sub/mul without nsw/nuw are arithmetic modulo 2^n per lane"]
-    return common.finish(res, explanation="every integer vector type x configuration x "
-                         "{+,-,*,unary -,++,--, compound forms}: optimised IR summarised into a "
-                         "closed form and compared with add/sub/mul modulo 2^bits on the same lane",
+                   "LLVM LangRef semantics of the IR instructions; Intel SDM semantics of the x86 intrinsics as modelled in spec/isa.py",
+                   "the term normaliser, the exact IEEE evaluator (lib/fpeval.py) and the abstract interpreter (lib/absint.py, self-tested against the concrete evaluator)"]
+    return common.finish(res, explanation="every integer vector type x configuration x {==, !=, <, <=, >, >=}: optimised IR summarised into a closed form and compared with icmp of the type's own signedness on the same lane, every result lane being a uniform mask (k-bit, or all-ones / all-zeros lane); emulated compares (64-bit before SSE4.2, unsigned via bias / min-max) are decided by normal form, truth table (8/16-bit lanes) or refuted by a distinguishing operand pair",
                          write_floor=getattr(a, "write_floor", False))
